@@ -142,7 +142,7 @@ REP_PARAMS = [
 
 def rep_tasks(oracles, budget, graphs=None, params=None, exit_sets=None, cancel_sets=None, **kw):
     tasks = []
-    graphs = graphs or [g for g in S.REP if g not in ("cancelfan7", "indep4", "wide5")]  # heavy ones only when named
+    graphs = graphs or [g for g in S.REP if g not in ("cancelfan7", "indep4", "wide5", "fan5")]  # heavy ones only when named
     for g in graphs:
         bb = S.REP[g]
         n = len(bb)
@@ -153,6 +153,22 @@ def rep_tasks(oracles, budget, graphs=None, params=None, exit_sets=None, cancel_
                     tasks.append(dict(id=f"{g}-{tag}-e{ei}-c{ci}-b{budget[0]}", scen=sc,
                                       oracles=["Obs"] + oracles, budget=budget,
                                       cls="rep+" + _cls(bb, gkw)))
+    return tasks
+
+
+def manual_submitter_tasks(oracles, budget, graphs):
+    """--no-distributed-submitter: nodes never run try-submit-jobs; the user runs it by hand, at any time,
+    as often as needed."""
+    tasks = []
+    for g in graphs:
+        bb = S.REP[g]
+        n = len(bb)
+        for tag, gkw in (("sz1-mx2", dict(size=1, max_nodes=2, distributed=False)), ("sz2-mxN", dict(size=2, max_nodes=None, distributed=False))):
+            actors = [dict(name="usr", argv=["jade", "try-submit-jobs", "{out}"], host="login1", guard="submitted_incomplete", repeat=n + 2),
+                      rec_actor(n)]
+            sc = mk_scen(bb, gkw, actors=actors)
+            tasks.append(dict(id=f"manual-{g}-{tag}-b{budget[0]}", scen=sc, oracles=["Obs"] + oracles, budget=budget,
+                              cls="no-distributed-submitter+" + _cls(bb, gkw)))
     return tasks
 
 
@@ -354,6 +370,7 @@ C03_PARAMS = [
     ("2groups", dict(size=2), "split"),
     ("mx1", dict(size=1, max_nodes=1), None),
     ("local", dict(nproc=2), "local"),
+    ("tb2", dict(time_based=True, walltime="0:02:00", nproc=1, try_add=True), "est1"),
 ]
 
 
@@ -376,6 +393,8 @@ def outcome_tasks(oracles, ns=(1, 2, 3), codes=(0, 1), budget=(0, 0), params=Non
                             assign = tuple(i % 2 for i in range(n))
                         if special == "local":
                             kw = dict(mode="local", actors=[])
+                        if special == "est1":
+                            kw = dict(est=(1,) * n)
                         sc = mk_scen(bb, gkw, exit_codes=ec, cancel=cancel, assign=assign, **kw)
                         tasks.append(dict(id=f"g{n}.{gi}-e{''.join(map(str, ec))}-f{''.join(map(str, fl))}-{tag}",
                                           scen=sc, oracles=["Obs"] + oracles, budget=budget,
@@ -401,16 +420,20 @@ def _c0304(prop, tier):
                            params=REP_PARAMS[:2], exit_sets=fail_sets, cancel_sets=flag_sets)
         tasks += user_round_tasks([prop], (1, 0), ["pair", "chain2"], params=[("sz1-mxN", dict(size=1, max_nodes=None))])
         tasks += user_round_tasks([prop], (0, 0), ["indep3", "fork"])
+        tasks += manual_submitter_tasks([prop], (0, 0), ["pair", "chain2", "fork"])
+        tasks += rep_tasks([prop], (0, 0), graphs=["fan5"], params=[("one-batch-q2", dict(size=5, nproc=2)), ("sz2-q1", dict(size=2, nproc=1)), ("local", dict(nproc=2))],
+                           exit_sets=lambda n: [None, (1, 0, 0, 0, 0), (0, 1, 0, 0, 0)], cancel_sets=lambda n: [(0, 1, 0, 1, 0)], stutter=1)
         tasks += rep_tasks([prop], (0, 0), graphs=["cancelfan7"], params=[("one-batch-q2", dict(size=7, nproc=2)), ("sz3-q2", dict(size=3, nproc=2))],
                            exit_sets=lambda n: [(0, 1, 0, 0, 0, 0, 0)], cancel_sets=lambda n: [(0, 0, 1, 1, 1, 0, 0)], stutter=1)
-        bounds = ("G(1..3) x exit codes {0,1}^n x cancel flags on blocked jobs x 6 parameter sets (incl. two groups, max-nodes 1, local) "
-                  "at budget 0 with all finish orders; 5 REP graphs x single failures x flags at 1 preemption with the recovery actor; a user-run try-submit-jobs at any point (1 preemption on 2-job graphs, budget 0 on 3-job graphs); a 7-job cancel fan-out in one batch")
+        bounds = ("G(1..3) x exit codes {0,1}^n x cancel flags on blocked jobs x 7 parameter sets (incl. two groups, max-nodes 1, local, time-based) "
+                  "at budget 0 with all finish orders; 5 REP graphs x single failures x flags at 1 preemption with the recovery actor; a user-run try-submit-jobs at any point (1 preemption on 2-job graphs, budget 0 on 3-job graphs); --no-distributed-submitter with the user running try-submit-jobs at any time; a 5-job fan-out and a 7-job cancel fan-out")
     else:
         tasks = outcome_tasks([prop], ns=(1, 2, 3))
         tasks += outcome_tasks([prop], ns=(2, 3), codes=(0, 2, 255), params=C03_PARAMS[:2])
         tasks += rep_tasks([prop], (2, 0), params=REP_PARAMS, exit_sets=fail_sets, cancel_sets=flag_sets)
         tasks += user_round_tasks([prop], (2, 0), ["pair", "chain2"], params=[("sz1-mxN", dict(size=1, max_nodes=None))])
         tasks += user_round_tasks([prop], (1, 0), ["indep3", "fork", "chain3"])
+        tasks += manual_submitter_tasks([prop], (1, 0), ["pair", "chain2", "fork", "indep3"])
         bounds = "as quick plus exit codes {0,2,255}; all REP graphs x single failures x flags at 2 preemptions"
     return explore_check(prop, tier, tasks, S_RULE, COMMON_ASSUMPTIONS, dict(bounds=bounds))
 
@@ -447,6 +470,7 @@ def c05(tier):
     tasks += input_grid_tasks(["C05"], ns=(1, 2, 3))
     tasks += user_round_tasks(["C05"], (1, 0), ["pair", "chain2"], params=[("sz1-mxN", dict(size=1, max_nodes=None))])
     tasks += user_round_tasks(["C05"], (0, 0) if tier == "quick" else (1, 0), ["indep3", "fork"])
+    tasks += manual_submitter_tasks(["C05"], (0, 0) if tier == "quick" else (1, 0), ["pair", "chain2", "fork"])
     # the order of 'results summary, then flag' is only visible when unprotected files are sync points (L1)
     for t in rep_tasks(["C05"], (0, 0) if tier == "quick" else (1, 0), graphs=["pair", "chain3", "fork"], params=params[2:]):
         t["scen"]["level"] = 1
@@ -482,6 +506,8 @@ def c06(tier):
                                                                        ("sz4-q2-mx1", dict(size=4, nproc=2, max_nodes=1))], **fan)
     t = rep_tasks(["C06"], (0, 0), graphs=["cancelfan7"], params=[("local-q2", dict(nproc=2))], mode="local", actors=[], **fan)
     tasks += t
+    tasks += rep_tasks(["C06"], (0, 0), graphs=["fan5"], params=[("one-batch-q2", dict(size=5, nproc=2)), ("one-batch-q1", dict(size=5, nproc=1)), ("sz3-q2", dict(size=3, nproc=2))], stutter=1)
+    tasks += rep_tasks(["C06"], (0, 0), graphs=["fan5"], params=[("local-q2", dict(nproc=2))], mode="local", actors=[], stutter=1)
     for t in tasks:
         if "cancelfan7" in t["id"]:
             t["scen"]["stutter"] = 2  # up to two polls per process at which nothing finishes
